@@ -843,6 +843,20 @@ func runC08(c *Ctx) {
 					case *ssa.Store:
 						if fa, isFA := x.Addr.(*ssa.FieldAddr); isFA && fa.X == ssa.Value(lit.Params[0]) {
 							stores++
+							// a list option extends its own list: opts.F = append(opts.F, …)
+							if ap, isC := x.Val.(*ssa.Call); isC {
+								if b, isB := ap.Call.Value.(*ssa.Builtin); isB && b.Name() == "append" {
+									okSelf := false
+									if ld, isLd := ap.Call.Args[0].(*ssa.UnOp); isLd && ld.Op == token.MUL {
+										if fa0, isFA0 := ld.X.(*ssa.FieldAddr); isFA0 && fa0.X == fa.X && fa0.Field == fa.Field {
+											okSelf = true
+										}
+									}
+									if !okSelf {
+										bad = append(bad, c.pos(x.Pos())+": "+short(f.String())+" stores into "+fieldName(fa.X.Type(), fa.Field)+" a list built on "+c.Path(ap.Call.Args[0], nil))
+									}
+								}
+							}
 						}
 					case *ssa.If:
 						for v := range backSlice(x.Cond) {
